@@ -108,7 +108,9 @@ def observe(norm: Norm, d, sub, rc, tool):
 # ---------------------------------------------------------------------------------------------------
 # predictor: what would the tool see under a set of listed mechanisms?
 # ---------------------------------------------------------------------------------------------------
-DUMPER = "import json,os,sys\nprint(json.dumps({'argv': sys.argv[1:], 'env': {k: v for k, v in os.environ.items() if k in ('VF_A', 'VF_B', 'VF_C')}}))\n"
+# like the probe, the dumper reports through a file: the unquoted line may redirect its stdout
+DUMPER = ("import json,os,sys\nopen(os.environ['VFPRED_OUT'], 'w').write(json.dumps({'argv': sys.argv[1:], "
+          "'env': {k: v for k, v in os.environ.items() if k in ('VF_A', 'VF_B', 'VF_C')}}))\n")
 
 
 def sh_run(scratch: str, line: str):
@@ -116,10 +118,18 @@ def sh_run(scratch: str, line: str):
     d = os.path.join(scratch, "vf_pred")
     shutil.rmtree(d, ignore_errors=True)
     os.makedirs(d)
-    env = {"PATH": os.environ.get("PATH", "/usr/bin:/bin"), "HOME": os.environ.get("HOME", "/"), "TMPDIR": os.environ.get("TMPDIR", "/tmp")}
+    outp = os.path.join(scratch, "vf_pred_out.json")
+    if os.path.exists(outp):
+        os.unlink(outp)
+    env = {"PATH": os.environ.get("PATH", "/usr/bin:/bin"), "HOME": os.environ.get("HOME", "/"), "TMPDIR": os.environ.get("TMPDIR", "/tmp"),
+           "VFPRED_OUT": outp}
     try:
         r = subprocess.run(["sh", "-c", line], cwd=d, env=env, capture_output=True, timeout=600, stdin=subprocess.DEVNULL)
-        return r.returncode, r.stdout.decode("utf-8", "replace")
+        out = ""
+        if os.path.exists(outp):
+            with open(outp) as f:
+                out = f.read()
+        return r.returncode, out
     except subprocess.TimeoutExpired:
         return -1, ""
     finally:
